@@ -28,7 +28,7 @@ Definition NSLOTS : N := 4.
 Record tinfo := { ti_norm : N -> N; ti_len : N -> N; ti_size : N;
                   ti_clone : bool; ti_ser : bool; ti_logs : bool }.
 
-Definition NT : N := 17.
+Definition NT : N := 23.
 Definition P32 : N := 4294967296.
 
 Definition tok_len (v : N) : N := (v mod 5) * 3.
@@ -68,6 +68,13 @@ Definition info_small (tag : N) : tinfo :=
   | 15 => mk m32 ds_len 40 true true true                           (* DS (derived struct) *)
   | 16 => mk m32 de_len 12 true true true                           (* DE (derived enum) *)
   | 17 => mk (fun _ => 0) (fun _ => 0) 0 true false false           (* () *)
+  (* distinct types that a name- or layout-based comparison would confuse; all { val: u32, ser: u32 } + Drop *)
+  | 18 => mk m32 (fun _ => 3) 8 true true true                      (* Reading, declared in one block of a fn *)
+  | 19 => mk m32 (fun _ => 3) 8 true true true                      (* Reading, declared in the sibling block: same type_name *)
+  | 20 => mk m32 (fun _ => 6) 8 true true true                      (* Gen<u32> *)
+  | 21 => mk m32 (fun _ => 6) 8 true true true                      (* Gen<i32>: differs in the generic argument only *)
+  | 22 => mk m32 (fun _ => 1) 8 true true true                      (* left::Sample *)
+  | 23 => mk m32 (fun _ => 1) 8 true true true                      (* right::Sample: same last path segment *)
   | _ => mk (fun v => v) (fun _ => 0) 0 true false false
   end.
 
